@@ -145,7 +145,8 @@ Definition pick {A} (order : list nat) (l : list A) : list A :=
 (* ICMP6SendNeighborAdvertisement(fakeRouter, dstAddr, targetAddr) *)
 Definition forge (c : config) (dst : addr) (router_ip : bytes) : na :=
   mkNA (a_mac dst) (host_mac c) router_ip (a_ip dst)
-       (if is_llu (a_ip dst) || is_llm (a_ip dst) then 255 else 64)
+       255      (* icmp6SendPacket: hop limit 255 for every neighbour discovery message (SEND repair 5a5618d;
+                   before: 255 only towards a link-local destination, which every loop destination is) *)
        false false true router_ip (host_mac c).
 
 (* spoofLoop, the part under h.Lock(): icmp6spoof.go:61-76.  Enabled only when the goroutine has
